@@ -108,11 +108,11 @@ def run(ctx):
         z = [x for x in rows if x.conds == [('(0 == frame_max)', True)]]
         nz = [x for x in rows if x.conds == [('(0 == frame_max)', False)]]
         if r.check('payload-limit:rows', len(z) == 1 and len(nz) == 1, site, built=[x.row() for x in rows]):
-            ez = [e for e in z[0].effects if e.startswith('frame_max')]
-            en = [e for e in nz[0].effects if e.startswith('frame_max')]
-            r.eq('payload-limit:zero', ez, ['frame_max = usize::MAX', 'frame_max -= io_loop::channel_handle::FRAME_OVERHEAD'], site)
-            r.eq('payload-limit:nonzero', en, ['frame_max -= io_loop::channel_handle::FRAME_OVERHEAD'], site, why='payload per body frame = negotiated frame_max minus the framing bytes')
-            r.check('payload-limit:stored', all(x.value_str() == 'io_loop::channel_handle::Channel0Handle{frame_max: frame_max, handle: handle}' for x in rows), site)
+            OVH = 'io_loop::channel_handle::FRAME_OVERHEAD'
+            r.eq('payload-limit:zero', z[0].value_str(), 'io_loop::channel_handle::Channel0Handle{frame_max: (usize::MAX - %s), handle: handle}' % OVH, site, why='0 = no limit')
+            r.eq('payload-limit:nonzero', nz[0].value_str(), 'io_loop::channel_handle::Channel0Handle{frame_max: (frame_max - %s), handle: handle}' % OVH, site,
+                 why='payload per body frame = negotiated frame_max minus the framing bytes')
+            r.check('payload-limit:stored', not [e for x in rows for e in x.effects if e.startswith('frame_max')], site, why='the limit is computed once, here')
         c = ctx.const('io_loop::channel_handle::FRAME_OVERHEAD')
         r.check('FRAME_OVERHEAD', c.get('bits') is not None and int(c['bits']) == 8, None, built=c.get('bits'), expected='8 (7-byte frame header + frame-end octet)',
                 why='a smaller overhead makes body frames exceed the negotiated frame_max')
